@@ -1,7 +1,7 @@
 #!/bin/bash
 # runs every check's quick (or $1) tier sequentially; prints one line per check
 tier=${1:-quick}
-cd /verif
+cd "${VERIF_DIR:-/verif}"
 for p in C01 C02 C03 C04 C05 C06 C07 C08 C09 C10 C11 C12 C13 C14 C15 C16 C17 C18 C19; do
   s=$(date +%s)
   out=$(./check $p --tier $tier 2>&1)
